@@ -296,6 +296,35 @@ def build_request(uni, in_prot, rclass, rng):
             r.verb = rclass[1]
         r.label = ('multi', 'verb')
         return r
+    if kind == 'multiref':
+        # SOAP section-5 multi-reference encoding: a complex argument is sent
+        # as <arg href="#idN"/> plus an independent element carrying the id
+        m = rclass[1]
+        base = encode_request(uni, in_prot, m, uni.gen_args(rng, m))
+        if in_prot not in ('soap11', 'soap12'):
+            return base
+        from lxml import etree
+        try:
+            root = etree.fromstring(base.body)
+        except Exception:
+            return base
+        body = [c for c in root if isinstance(c.tag, str) and
+                                    etree.QName(c).localname == 'Body']
+        if not body or not len(body[0]):
+            return base
+        meth = body[0][0]
+        n = 0
+        for arg in list(meth):
+            if len(arg):
+                n += 1
+                ref = etree.SubElement(body[0], 'multiRef')
+                ref.set('id', 'id%d' % n)
+                for ch in list(arg):
+                    ref.append(ch)
+                arg.set('href', '#id%d' % n)
+        r = base.with_body(etree.tostring(root))
+        r.label = (m, 'multiref')
+        return r
     if kind == 'multipart':
         # SOAP with attachments: the same valid document inside a
         # multipart/related body, well-formed or broken in one way
